@@ -187,6 +187,11 @@ impl Hypercore {
     pub open spec fn quiescent(&self) -> bool {
         self.oplog.entries_byte_length < 65536 && self.oplog.entries_length <= 0xffff_ffff_ffff && (self.skip_flush_count == 0 || self.oplog.entries_length + self.skip_flush_count <= 3)
     }
+    /// C02 redo-log invariant: a tree node that exists in memory only is covered by a pending oplog entry - when the entries
+    /// have just been folded into a persisted header (none pending), no tree node is waiting to be written
+    pub open spec fn nothing_pending_unjournalled(&self) -> bool {
+        self.oplog.entries_length == 0 ==> self.tree.unflushed@ =~= Map::<u64, Node>::empty()
+    }
     /// the observable in-memory state (everything except storage, oplog bookkeeping and pending-write queues)
     pub open spec fn same_view(&self, o: &Hypercore) -> bool {
         &&& forall|k: int| self.bitfield.bit(k) == o.bitfield.bit(k)
@@ -237,6 +242,8 @@ impl Hypercore {
         // C10: a failed storage operation is reported, nothing is issued after it
         (r is Err) == final(self).storage.failed@,
         r is Ok ==> final(self).wf_core() && final(self).oplog.entries_byte_length == 0 && final(self).oplog.entries_length == 0,
+        // the persisted header covers persisted tree nodes only: after a flush no tree node is pending in memory
+        r is Ok ==> final(self).tree.unflushed@ =~= Map::<u64, Node>::empty(),
         r is Ok && !clear_traces ==> Oplog::cur_hbit(final(self).oplog.header_bits) != Oplog::cur_hbit(old(self).oplog.header_bits),
         final(self).storage.journal@.len() >= old(self).storage.journal@.len(),
         // C02: bitfield pages, then tree (truncate first, then nodes), then the header slot(s), then the truncate of the entries
@@ -298,7 +305,7 @@ impl Hypercore {
             && r->Ok_0.length == old(self).tree.length && r->Ok_0.byte_length == old(self).tree.byte_length,
         // C10: a storage failure is the only way to fail, and it always surfaces
         old(self).key_pair.secret is Some ==> (r is Err) == final(self).storage.failed@,
-        old(self).key_pair.secret is Some && batch@.len() > 0 && r is Ok ==> final(self).wf() && final(self).quiescent()
+        old(self).key_pair.secret is Some && batch@.len() > 0 && r is Ok ==> final(self).wf() && final(self).quiescent() && final(self).nothing_pending_unjournalled()
             && r->Ok_0.length == old(self).tree.length + batch@.len()
             && r->Ok_0.byte_length == old(self).tree.byte_length + concat_blocks(batch@, batch@.len() as int).len()
             && final(self).tree.length == r->Ok_0.length && final(self).tree.byte_length == r->Ok_0.byte_length
@@ -535,6 +542,7 @@ impl Hypercore {
         // C10
         final(self).storage.failed@ ==> r is Err,
         r is Ok && r->Ok_0 == true ==> final(self).wf_core() && final(self).quiescent() && final(self).key_pair == old(self).key_pair
+            && final(self).nothing_pending_unjournalled()
             // exactly the received block becomes held
             && (forall|k: int| #![trigger final(self).bitfield.bit(k)] final(self).bitfield.bit(k)
                     == (old(self).bitfield.bit(k) || (proof.block is Some && k == proof.block->Some_0.index))),
